@@ -432,6 +432,12 @@ func fileSeek(L *LState) int {
 	var pos int64
 	var err error
 
+	// like fseek: pending output belongs before the current position
+	if bwriter, ok := file.writer.(*bufio.Writer); ok {
+		if err = bwriter.Flush(); err != nil {
+			goto errreturn
+		}
+	}
 	err = file.AbandonReadBuffer()
 	if err != nil {
 		goto errreturn
